@@ -1,6 +1,7 @@
 package vm
 
 import (
+	"math"
 	"reflect"
 	"strings"
 
@@ -253,7 +254,14 @@ func (runInfo *runInfoStruct) invokeMultiplyOperator(operator *ast.MultiplyOpera
 				runInfo.rv = nilValue
 				return
 			}
-			runInfo.rv = reflect.ValueOf(strings.Repeat(toString(lhsV), int(count)))
+			str := toString(lhsV)
+			if len(str) > 0 && count > int64(math.MaxInt32)/int64(len(str)) {
+				// strings.Repeat panics when the length of the result overflows
+				runInfo.err = newStringError(operator, "repeat count too large")
+				runInfo.rv = nilValue
+				return
+			}
+			runInfo.rv = reflect.ValueOf(strings.Repeat(str, int(count)))
 			return
 		}
 		if lhsV.Kind() == reflect.Float64 || lhsV.Kind() == reflect.Float32 || runInfo.rv.Kind() == reflect.Float64 || runInfo.rv.Kind() == reflect.Float32 {
